@@ -50,9 +50,13 @@ def main():
                            check=True)
             shutil.rmtree(os.path.join(base, 'replays'), ignore_errors=True)
             env = dict(os.environ, VERIF_REPO=patched, VERIF_COQ=coq)
-            rc, out = sh([os.path.join(VERIF, 'bin', 'check'), prop], env=env)
-            lines = [l for l in out.split('\n') if l.startswith('VIOLATION') or 'verdicts=' in l]
-            status = 'caught' if rc == 1 and any(l.startswith('VIOLATION') for l in lines) else 'MISSED'
+            status, lines = 'MISSED', []
+            for pr in meta.get('run_checks', [prop]):     # a change may be another property's business
+                rc, out = sh([os.path.join(VERIF, 'bin', 'check'), pr], env=env)
+                ls = [l for l in out.split('\n') if l.startswith('VIOLATION') or 'verdicts=' in l]
+                lines += ls
+                if rc == 1 and any(l.startswith('VIOLATION') for l in ls):
+                    status = 'caught' if pr == prop else 'caught by ' + pr
             rows.append((sid, prop, status, 'demo clean/patched rc=%d/%d; %s' % (rc_c, rc_p, ' || '.join(lines)[-260:])))
             print(rows[-1], flush=True)
     finally:
@@ -60,7 +64,7 @@ def main():
     print('\nSUMMARY')
     for r in rows:
         print('%-8s %-4s %s' % r[:3])
-    return 0 if all(r[2] == 'caught' for r in rows) else 1
+    return 0 if all(r[2].startswith('caught') for r in rows) else 1
 
 
 if __name__ == '__main__':
